@@ -29,6 +29,7 @@ func dests() []reflect.Type {
 		reflect.TypeOf([]int(nil)), reflect.TypeOf([]int8(nil)), reflect.TypeOf([]uint16(nil)), reflect.TypeOf([]string(nil)), reflect.TypeOf([]interface{}(nil)), reflect.TypeOf([]float64(nil)), reflect.TypeOf([][]int(nil)),
 		reflect.TypeOf([2]int{}), reflect.TypeOf([3]byte{}), reflect.TypeOf([1]string{}),
 		reflect.TypeOf(map[string]int(nil)), reflect.TypeOf(map[int]string(nil)), reflect.TypeOf(map[string]interface{}(nil)), reflect.TypeOf(map[interface{}]interface{}(nil)), reflect.TypeOf(map[string]string(nil)),
+		reflect.TypeOf(map[int][]int(nil)), reflect.TypeOf(map[int]gentypes.One(nil)), reflect.TypeOf(map[uint16][]string(nil)), reflect.TypeOf(map[int64]map[string]int(nil)), reflect.TypeOf(map[int][2]int(nil)),
 		reflect.TypeOf(gentypes.One{}), reflect.TypeOf(gentypes.Inner{}), reflect.TypeOf(struct{ A int }{}), reflect.TypeOf(struct {
 			IA int8
 			IB string
